@@ -641,6 +641,11 @@ static bool RunPipeline(const Kind & k, const Outgoing & og, const std::string &
       else if (snd()->HasBytesToOutput()) { key = kk + ":pipe:sender-not-finished"; msg = verif::Fmt("sender still HasBytesToOutput() after %u bytes and no progress", (unsigned)sio.out.size()); ok = false; }
       else if (rio.inPos != sio.out.size()) { key = kk + ":pipe:receiver-stalls"; msg = verif::Fmt("receiver consumed %u of %u bytes and makes no progress", (unsigned)rio.inPos, (unsigned)sio.out.size()); ok = false; }
       else { sp.inStream = sio.out; const std::string d = CheckDelivered(sp, col, rcv(), (uint32)sio.out.size()); if (!d.empty()) { key = kk + ":pipe:delivered-differs"; msg = d; ok = false; } }
+      if (ok && k.id == K_TPL) {   // "the two ends must keep their caches in step": same template ids in the same LRU order, same byte tally
+         const TemplatingMessageIOGateway * a = static_cast<const TemplatingMessageIOGateway *>(snd()), * b = static_cast<const TemplatingMessageIOGateway *>(rcv());
+         std::string ka, kb; for (HashtableIterator<uint64, MessageRef> it(a->_outgoingTemplates); it.HasData(); it++) ka += verif::Fmt("%llx,", (unsigned long long)it.GetKey()); for (HashtableIterator<uint64, MessageRef> it(b->_incomingTemplates); it.HasData(); it++) kb += verif::Fmt("%llx,", (unsigned long long)it.GetKey());
+         if (ka != kb || a->_outgoingTemplatesTotalSizeBytes != b->_incomingTemplatesTotalSizeBytes) { key = kk + ":pipe:template-caches-out-of-step"; msg = verif::Fmt("sender's outgoing template cache [%s] (%u bytes) differs from the receiver's incoming cache [%s] (%u bytes) after the complete exchange", ka.c_str(), a->_outgoingTemplatesTotalSizeBytes, kb.c_str(), b->_incomingTemplatesTotalSizeBytes); ok = false; }
+      }
    }
    snd()->SetDataIO(DataIORef()); rcv()->SetDataIO(DataIORef());
    return ok;
